@@ -28,7 +28,7 @@ for pid in sorted(props):
 out.append("\n## 5. Not applicable\n")
 for pid, why in sorted(meta["not_applicable"].items()):
     out.append(f"* **{pid}** ({props[pid]['title']}): {why}\n")
-out.append("\n## 6. Genuine defects found by failed obligations\n\nEach (with the two exceptions described below the table) was first reported by an obligation that failed (or could not be discharged) on the then-current tree, replayed on the real code with the driver in `replay/`, and then either repaired by one minimal `fix:` commit in /repo (the obligation discharges afterwards, and a self-test mutation that re-introduces the defect must fail) or recorded as an open finding.  The unedited test suite passes with all fixes (40 packages, tag off).\n\n| property | obligation | status | what failed |\n|---|---|---|---|\n")
+out.append("\n## 6. Genuine defects found by failed obligations\n\nEach has an obligation that fails (or cannot be discharged) on the pinned code - most were first seen that way; several were first noticed by reading the code on the first day (and kept as must-fail canaries until a contract reported them) or by seed-writing agents exploring the unchanged tree, as described below the table - was replayed on the real code with the driver in `replay/`, and then either repaired by one minimal `fix:` commit in /repo (the obligation discharges afterwards, and a self-test mutation that re-introduces the defect must fail) or recorded as an open finding.  The unedited test suite passes with all fixes (40 packages, tag off).\n\n| property | obligation | status | what failed |\n|---|---|---|---|\n")
 for k in json.load(open(f"{V}/known_findings.json")):
     st = k["status"] + (" " + k.get("commit", "") if k["status"] == "fixed" else "")
     out.append(f"| {k['property']} | `{k['obligation']}` | {st} | {k['what_fails']} |\n")
